@@ -126,6 +126,7 @@ class FnContract:
     inserts: List[Insert] = field(default_factory=list)
     replaces: List[Replace] = field(default_factory=list)
     stubsig: Optional[str] = None
+    bodysig: bool = False      # the hand-written signature also replaces the real one when the body is verified (`impl Iterator` -> VpIter)
     candidates: List[dict] = field(default_factory=list)
     notes: List[str] = field(default_factory=list)
 
@@ -330,6 +331,8 @@ def parse_vc(path: str, text: str) -> List[FnContract]:
                 cur.attrs.append(rest)
             elif head == '@mutself':
                 cur.mutself = True
+            elif head == '@bodysig':
+                cur.bodysig = True
             elif head == '@cell':
                 cur.cells += rest.split()
             elif head == '@inline':
@@ -410,6 +413,7 @@ def _merge(a: FnContract, b: FnContract) -> FnContract:
     a.inserts += b.inserts
     a.replaces += b.replaces
     a.stubsig = a.stubsig or b.stubsig
+    a.bodysig = a.bodysig or b.bodysig
     a.candidates += b.candidates
     a.notes += b.notes
     return a
